@@ -6,6 +6,7 @@ quantities (which are themselves judged by the C03/C05 monitors installed alongs
 factor family, common pattern and stored order across the triple, volumes in grid order.
 """
 import hashlib
+import os
 import random
 
 import numpy as np
@@ -16,7 +17,7 @@ from vlib.rec import REC
 
 ID = "C02"
 LEVEL = "exploration"
-DECIDING = ["C02.adjacency", "C02.borders", "C02.distances", "C02.volumes"]
+DECIDING = ["C02.adjacency", "C02.borders", "C02.distances", "C02.volumes", "C02.workflow_files"]
 RULE = ("full grids: rotation algorithm in {cube4D, randomQ} with n_b in {1,4,5,8,9,13,20,40(thorough)}, direction algorithm in {ico, cube3D, "
         "randomS} with n_o in {1,4,5,7,12,13,20,42}, 2-4 unequal radii, factor in {0.5,1,2,3.7}, both position modes (Cartesian only for direction "
         "sets that surround the origin); the four getters are called in random order, some twice. Non-trivial = n_b>=4 and n_o>=4 (both "
@@ -234,7 +235,39 @@ def drive(FullGrid, b, o, t, f, cart, order_seed):
 
 def shards(tier, seed):
     n, per = (14, 2) if tier == "quick" else (32, 8)
-    return [{"rseed": seed * 1000 + i, "count": per} for i in range(n)]
+    return [{"rseed": seed * 1000 + i, "count": per} for i in range(n)] + \
+           [{"kind": "workflow_files", "rseed": seed * 1000 + 900 + i, "count": 2 if tier == "quick" else 6} for i in range(2)]
+
+
+def run_workflow_files(spec):
+    """the literal run: body of rule run_grid is executed and every file it writes is compared with the getter of that name"""
+    import shutil
+    import tempfile
+    from vlib.props import c14
+    from molgri.space.fullgrid import FullGrid
+    repo = os.environ.get("VERIF_REPO", "/repo")
+    rng = random.Random(spec["rseed"])
+    for it in range(spec["count"]):
+        sp = c14.make_spec(rng)
+        d = tempfile.mkdtemp(prefix="verif_c02w_")
+        REC.begin_case({"kind": "workflow run_grid", **sp}, cls="workflow run_grid files")
+        try:
+            paths = {k: os.path.join(d, v) for k, v in dict(full_array="full_array.npy", adjacency_array="adjacency_array.npz",
+                     adjacency_only_position="adjacency_array_position.npz", adjacency_only_orientation="adjacency_array_orientation.npz",
+                     distances_array="distances_array.npz", borders_array="borders_array.npz", volumes="volumes.npy").items()}
+            body = c14.rule_body(os.path.join(repo, "workflow", "run_grid"), "run_grid")
+            g = {"np": np, "sparse": sparse, "FullGrid": FullGrid,
+                 "params": c14.ns(n_points_orientations=sp["b"], n_points_directions=sp["o"], radial_distances_nm=sp["t"],
+                                  factor_orientation_to_position=float(sp["factor"]), position_grid_cartesian=bool(sp["cartesian"])),
+                 "output": c14.ns(**paths)}
+            exec(compile(body, "workflow/run_grid:run_grid", "exec"), g)
+            c14.check_workflow_files(paths, sp["b"], sp["o"], sp["t"], sp["factor"], sp["cartesian"])
+            if sp["n_b"] >= 4:
+                REC.nontrivial_case(("workflow", sp["b"], sp["o"], sp["t"], sp["factor"], sp["cartesian"]))
+        except Exception as e:
+            REC.crashed("C02.call_raised", e)
+        finally:
+            shutil.rmtree(d, ignore_errors=True)
 
 
 def run_shard(spec):
@@ -242,6 +275,8 @@ def run_shard(spec):
     from vlib.props import c05, c09, c16, c07
     c05.install(); c09.install(); c16.install(); c07.install()
     FullGrid = install()
+    if spec.get("kind") == "workflow_files":
+        return run_workflow_files(spec)
     rng = random.Random(spec["rseed"])
     nbs = [1, 4, 5, 8, 9, 13] + ([20] if spec["tier"] == "quick" else [20, 20, 40])
     for it in range(spec["count"]):
